@@ -39,6 +39,24 @@ def c07u8 (a : List String) (obs : String) : String × String :=
     (model, verdict)
   | _ => ("BADOP", "skip")
 
+/-- CheckUTF8 reader with an OnContinuation handler that consumes the continuation frames: judged, not predicted
+    (the model has no OnContinuation) — delivered iff the whole text is well-formed. -/
+def c07rdoc (a : List String) (obs : String) : String × String :=
+  match a with
+  | [_st, _stream, _k, text] =>
+    let t := hexOr text
+    let f := obs.splitOn " "
+    let cls := f.headD ""
+    let verdict :=
+      if obs.startsWith "PANIC" then "bad:panic"
+      else if wfUtf8 t then
+        (if cls == "utf8" then "bad:valid-text-reported-invalid"
+         else if cls != "nil" then "bad:unexpected-error-class-" ++ cls
+         else if hexOr (f.getD 1 "") != t then "bad:delivered-bytes-differ-from-the-text" else "ok")
+      else (if cls == "utf8" then "ok" else "bad:invalid-text-accepted")
+    (obs, verdict)
+  | _ => ("BADOP", "skip")
+
 /-- UTF8Reader.Reset(src) puts the reader back into its initial state (`{}`), so each stream is
     read by a fresh model reader; the oracle judges each stream on its own bytes. -/
 def c07u8r (a : List String) (obs : String) : String × String :=
